@@ -169,7 +169,25 @@ def cobs(o):
 
 
 def case_args(case):
-    return "%s %s %s %s" % (cl(case["devs"], cdev), cb(case["strict"]), cb(case["record"]), cl(case["ops"], cop))
+    return "%s %s %s %s" % (cdevs(case["devs"]), cb(case["strict"]), cb(case["record"]), cl(case["ops"], cop))
+
+
+# The standard device universes are defined once per cases file (in the imports header, generated from the
+# very Python objects the driver uses) instead of being repeated in every term.
+def _std():
+    from harness.drivers import bundler_cases as bc
+    return [("devs_std", bc.DEVS), ("devs_std3", bc.DEVS[:3])]
+
+
+def cdevs(devs):
+    for nm, d in _std():
+        if devs == d:
+            return nm
+    return cl(devs, cdev)
+
+
+def imports():
+    return COQ_IMPORTS + "".join("\nDefinition %s : dict devspec := %s." % (nm, cl(d, cdev)) for nm, d in _std())
 
 
 def agrees_term(case, obs):
